@@ -37,7 +37,7 @@ pub fn cases(ctx: &Ctx) -> Vec<WCase> {
         s.timeout_ms = 600_000;
         s.keep_frames = Some(600);
         if rr.chance(0.5) {
-            s.link = Link { drop: 0.1, dup: 0.05, base_ms: 20, jitter_ms: 20, outages: vec![], faults: vec![] };
+            s.link = Link { drop: 0.1, dup: 0.05, base_ms: 20, jitter_ms: 20, outages: vec![], faults: vec![], stragglers: vec![] };
         }
         let drain = rr.chance(0.5);
         for _ in 0..s.peers.len() {
@@ -53,7 +53,7 @@ pub fn cases(ctx: &Ctx) -> Vec<WCase> {
                 sp.pauses.push((a, 100_000_000));
             }
             if spec_kind == 3 {
-                let l = Link { drop: 0.15, dup: 0.1, base_ms: 30, jitter_ms: 30, outages: vec![], faults: vec![] };
+                let l = Link { drop: 0.15, dup: 0.1, base_ms: 30, jitter_ms: 30, outages: vec![], faults: vec![], stragglers: vec![] };
                 s.link_overrides.push((peer_addr(sp.host), spec_addr(0), l.clone()));
                 s.link_overrides.push((spec_addr(0), peer_addr(sp.host), l));
             }
